@@ -629,7 +629,9 @@ pub fn registry(prop: &str) -> Option<Check> {
         "C07" => crate::props::c07::check(),
         "C08" => crate::props::c08::check(),
         "C10" => crate::props::c10::check(),
+        "C11" => crate::props::c11::check(),
         "C12" => crate::props::c12::check(),
+        "C13" => crate::props::c13::check(),
         "C17" => crate::props::c17::check(),
         "C19" => crate::props::c19::check(),
         "C20" => crate::props::c20::check(),
